@@ -446,7 +446,8 @@ def minimize_lbfgsb(
     if checkpoint is None:
         grad = sf.grad(x)
     else:
-        grad = checkpoint.jac
+        # private copy: this array becomes an element of the stored gradient sequence
+        grad = np.copy(checkpoint.jac)
 
     # scale the initial gradient and consequently the objective function
     # this is optional and needs to be investigated and documented.
